@@ -1,3 +1,4 @@
+@classmethod
 def spec(cls, loc, scale, generator=None):
     loc, scale = _astensorsfloat(loc, scale)
     return torch.normal(loc, scale, generator=generator)
